@@ -7,4 +7,5 @@ MCProg == (1 :> <<[api |-> "put", key |-> "k", val |-> "a", chunks |-> 2], [api 
 MCPre == {[key |-> "k", val |-> "old"]}
 NoDebris == {}
 NoKeyShards == <<>>
+NoPreRO == {}
 ====
